@@ -15,6 +15,7 @@ import Anko.Props.Tie.EnvFlow
 import Anko.Props.Tie.StmtFlow
 import Anko.Props.Tie.CallFlow
 import Anko.Props.Tie.SingleStmtFlow
+import Anko.Props.Tie.Inventory
 
 set_option linter.unusedSectionVars false
 set_option linter.unusedSimpArgs false
@@ -277,5 +278,16 @@ theorem source_tie_StmtFlow : Gen.StmtFlow.leaves = Tables.stmtFlow := Tie.stmtF
 theorem source_tie_CallFlow : Gen.CallFlow.leaves = Tables.callFlow := Tie.callFlow
 /-- the statement dispatcher, return, defer, deferred calls -/
 theorem source_tie_SingleStmtFlow : Gen.SingleStmtFlow.leaves = Tables.singleStmtFlow := Tie.singleStmtFlow
+
+
+/-! ### Declaration inventory
+
+Nothing was added to the packages this property is anchored in: their top-level declarations (functions, methods, variables, constants, types with
+the fields of struct types), regenerated from /repo on this run, are the audited ones (Props/Tie/Inventory). A helper, a package-level table or a
+file added there - code no flow table can pin - breaks the tie by name and makes this property's check search for a failing input. -/
+/-- vm/ -/
+theorem declarations_of_Vm_are_the_audited_ones : Tie.ofPkg "vm" Gen.Inventory.decls = Tie.ofPkg "vm" Tables.inventory := Tie.inventoryVm
+/-- env/ -/
+theorem declarations_of_Env_are_the_audited_ones : Tie.ofPkg "env" Gen.Inventory.decls = Tie.ofPkg "env" Tables.inventory := Tie.inventoryEnv
 
 end Anko.C04
